@@ -9,6 +9,7 @@ CONSTANTS
   Trips = {2}
   Kinds = {"if", "loop"}
   FnMenu = {1, 2, 3, 4}
+  CarryMenu = {}
   LitOnly = FALSE
   Sim = FALSE
 INVARIANT DesignOK
